@@ -62,6 +62,24 @@ impl Subpatterns {
                 continue;
             }
 
+            // The source has to be a regex on its own: wrapped in a group (below), something
+            // like `a)|(b` would parse, and its alternation would leak into the referencing pattern
+            let mut unwrapped_errors = Errors::default();
+            if let Some(unwrapped) =
+                build.subst_subpatterns(&pattern.escape(false), pattern.span(), &mut unwrapped_errors)
+            {
+                if let Err(msg) = Pattern::compile(
+                    false,
+                    &unwrapped,
+                    pattern.token().to_string(),
+                    pattern.unicode(),
+                    false,
+                ) {
+                    errors.err(msg, pattern.span());
+                    continue;
+                }
+            }
+
             if let Some(subst_pattern) =
                 build.subst_subpatterns(&subpattern.pattern, pattern.span(), errors)
             {
